@@ -26,6 +26,9 @@ THEOREMS = {
         "MG.C07.backward_clears_graph",
         "MG.C07.cleared_tensor_holds_no_strong_edge",
     ],
+    "MG.Proofs.C13": [
+        "MG.C13.mkDupGraph_discards_family_grads",
+    ],
 }
 
 GEN = dict(inplace=True, p_inplace=0.25, p_view=0.3, p_fail=0.0, p_const=0.1, n_stmts=9)
@@ -357,7 +360,11 @@ MANIFEST = {
             "(clearGraph_clears_root, clearGraph_clears_inputs; iterating along creator chains covers everything "
             "upstream), every completed backward ends in that state (backward_clears_graph), and a cleared tensor "
             "holds no strong reference into the graph other than to its base "
-            "(cleared_tensor_holds_no_strong_edge). The model is compared with MyGrad on random programs; the "
+            "(cleared_tensor_holds_no_strong_edge); an in-place update discards the gradients of the base and of every "
+            "view of the updated family, for any view forest (C13.mkDupGraph_discards_family_grads). The model is "
+            "compared with MyGrad on random single- and multi-epoch programs (a leaf's gradient and its views' must read "
+            "None the moment the leaf enters a non-view op or an in-place update); a dropped auxiliary branch of ~40 "
+            "op/layer families must be dead after backward with gc disabled; the "
             "implementation is observed with the cyclic collector disabled: weakrefs to all graph objects (ops, "
             "intermediates, placeholder copies) not strongly reachable from the handles the caller keeps must be "
             "dead, a DEBUG_SAVEALL collection must find no Tensor/Operation/ndarray, gradients persist exactly "
